@@ -508,7 +508,18 @@ func (p *uPacketPacker) MarshalInitialPacketPayload(pl payload, v protocol.Versi
 	// parse crypto data
 	cryptoData, err := clienthellod.ReassembleCRYPTOFrames(qchframes)
 	if err != nil {
-		return nil, err
+		// [UQUIC] The CRYPTO frames are not contiguous: this is a retransmission that combines
+		// ranges of several lost datagrams of the flight (e.g. the first and the third of three).
+		// There is no single slice to hand to the frame builder; send the frames as they were
+		// packed instead of failing the connection.
+		var frameBytes []byte
+		for _, f := range pl.frames {
+			var err error
+			if frameBytes, err = f.Frame.Append(frameBytes, v); err != nil {
+				return nil, err
+			}
+		}
+		return frameBytes, nil
 	}
 
 	// [UQUIC] Compute baseOffset: the absolute QUIC crypto stream offset of cryptoData[0].
